@@ -17,6 +17,7 @@ import (
 	"os"
 	"os/exec"
 	"path/filepath"
+	"runtime/debug"
 	"runtime/metrics"
 	"sync"
 	"syscall"
@@ -143,6 +144,25 @@ func execHostile(req hostileReq, dir string) (resp hostileResp) {
 		}
 		if err != nil {
 			resp.Err = err.Error()
+			// the failed Open must not leave the file open or locked: opening the same path again returns
+			// (with the same error) instead of waiting for a lock nobody will release
+			old := debug.SetGCPercent(-1) // a finalizer would close a leaked descriptor and hide the hang
+			again := make(chan struct{})
+			go func() {
+				defer close(again)
+				guard(func() {
+					if d2, e2 := wt.Open(p); e2 == nil {
+						d2.Close()
+					}
+				})
+			}()
+			select {
+			case <-again:
+			case <-time.After(10 * time.Second):
+				resp.Panic = "HANG: a second Open of the same damaged file did not return within 10 s (the failed first Open left the file locked)"
+				resp.Where = "second Open after a failed Open"
+			}
+			debug.SetGCPercent(old)
 			return
 		}
 		defer db.Close()
